@@ -3,6 +3,7 @@ LC_HEADER = ('From LC Require Import Lib.Bytes Model.MountInfo Model.FsTree Mode
 PROP = dict(
     go='c01', n_quick=240, n_thorough=2400,
     coq_header=LC_HEADER,
+    referee='cdom', referee_quick=3, referee_thorough=40,
     case_type='LC.case', verdict='C01.verdict',
     rule="mount L (twice) on generated forests with prior states built by earlier mounts and manual mounts/unmounts (partial, foreign, wrong-source, submounts carried by rbind, '..' mountpoints); non-trivial: a mount step issues at least one syscall",
     explanation='per step Coq evaluates: model step = observed step (result class, operation log, file tree, kernel table, '
